@@ -115,7 +115,7 @@ Qed.
 
 (* ---------------------------------------------------------------- the claim is raised *)
 Lemma Inv2_flag b t i fl cause root gid :
-  Inv b -> Inv2 b -> guards b (t, EFlag i fl cause root gid) = [] -> Inv2 (bapply b (t, EFlag i fl cause root gid)).
+  Inv b -> Inv2 b -> guards0 b (t, EFlag i fl cause root gid) = [] -> Inv2 (bapply b (t, EFlag i fl cause root gid)).
 Proof.
   intros I0 I G.
   assert (Hb : forall f, let b' := upd_inst (b <| b_now := t |>) i f in
@@ -128,6 +128,7 @@ Proof.
     apply app_nil_l2 in G. destruct G as [_ G].
     change (b_rets (b <| b_now := t |>)) with (b_rets b).
     destruct (aget (b_rets b) gid) as [r|] eqn:Er; [|discriminate].
+    apply app_nil_l2 in G. destruct G as [G Gt].
     apply pwhen_nil in G. apply Bool.negb_false_iff in G.
     apply andb_prop in G. destruct G as [G Gk]. apply andb_prop in G. destruct G as [Gw Gi].
     apply Z.eqb_eq in Gk, Gi.
@@ -160,7 +161,7 @@ Qed.
 
 (* ---------------------------------------------------------------- value and instance tables *)
 Lemma Inv2_valdef b t v len sok sid stok sprio mok hasid mid hastok mtok :
-  Inv2 b -> guards b (t, EValDef v len sok sid stok sprio mok hasid mid hastok mtok) = [] ->
+  Inv2 b -> guards0 b (t, EValDef v len sok sid stok sprio mok hasid mid hastok mtok) = [] ->
   Inv2 (bapply b (t, EValDef v len sok sid stok sprio mok hasid mid hastok mtok)).
 Proof.
   intros I G.
@@ -189,7 +190,7 @@ Proof.
 Qed.
 
 Lemma Inv2_instdef b t i key H TTL vi gr mh pr tk mo hh hd bt hp :
-  Inv2 b -> guards b (t, EInstDef i key H TTL vi gr mh pr tk mo hh hd bt hp) = [] ->
+  Inv2 b -> guards0 b (t, EInstDef i key H TTL vi gr mh pr tk mo hh hd bt hp) = [] ->
   Inv2 (bapply b (t, EInstDef i key H TTL vi gr mh pr tk mo hh hd bt hp)).
 Proof.
   intros I G. cbn in G. apply pwhen_nil in G.
@@ -232,8 +233,21 @@ Proof.
   - right. apply IH. exact H.
 Qed.
 
+Lemma issue_shape b t i op kind inner root gid key val exp :
+  let b' := bapply b (t, EIssue i op kind inner root gid key val exp) in
+  (forall op', aget (b_pend b') op' = if op =? op' then Some (mkPend i kind inner root gid key val exp t None) else aget (b_pend b) op') /\
+  b_rets b' = b_rets b /\ b_cfgs b' = b_cfgs b /\ b_vals b' = b_vals b /\ b_hist b' = b_hist b /\
+  (forall j, io_views (inst_of b' j) = io_views (inst_of b j)).
+Proof.
+  cbn [bapply].
+  match goal with |- context [if ?c then _ else _] => destruct c end; cbn; repeat split; auto;
+    try (intros; apply aget_aset);
+    intros j; try reflexivity;
+    rewrite inst_of_upd; destruct (Z.eqb_spec i j); [subst|]; reflexivity.
+Qed.
+
 Lemma Inv2_issue b t i op kind inner root gid key val exp :
-  Inv2 b -> guards b (t, EIssue i op kind inner root gid key val exp) = [] ->
+  Inv2 b -> guards0 b (t, EIssue i op kind inner root gid key val exp) = [] ->
   Inv2 (bapply b (t, EIssue i op kind inner root gid key val exp)).
 Proof.
   intros I G.
@@ -243,12 +257,8 @@ Proof.
   assert (Hdef : exists c, aget (b_cfgs b) i = Some c) by (destruct (aget (b_cfgs b) i); [eauto|discriminate]).
   set (p := mkPend i kind inner root gid key val exp t None).
   set (b' := bapply b (t, EIssue i op kind inner root gid key val exp)).
-  assert (Hp : forall op', aget (b_pend b') op' = if op =? op' then Some p else aget (b_pend b) op') by (intros; unfold b'; cbn; apply aget_aset).
-  assert (Hr : b_rets b' = b_rets b) by reflexivity.
-  assert (Hc : b_cfgs b' = b_cfgs b) by reflexivity.
-  assert (Hv : b_vals b' = b_vals b) by reflexivity.
-  assert (Hh : b_hist b' = b_hist b) by reflexivity.
-  assert (Hi : b_inst b' = b_inst b) by reflexivity.
+  destruct (issue_shape b t i op kind inner root gid key val exp) as (Hp & Hr & Hc & Hv & Hh & Hvw).
+  fold p in Hp. fold b' in Hp, Hr, Hc, Hv, Hh, Hvw.
   assert (Ev : forall v, vinfo_of b' v = vinfo_of b v) by (intros; unfold vinfo_of; rewrite Hv; reflexivity).
   assert (Ec : forall j, cfg_of b' j = cfg_of b j) by (intros; unfold cfg_of; rewrite Hc; reflexivity).
   assert (OV : forall k r j tk, own_version b k r j tk <-> own_version b' k r j tk).
@@ -273,7 +283,7 @@ Proof.
       apply pwhen_nil in G. apply Bool.negb_false_iff in G. apply andb_prop in G. destruct G as [_ Gm].
       apply view_mem_In in Gm. apply OV. rewrite Gk. apply A4. exact Gm.
     + intros H1 H2 H3 H4. apply OV. apply (A3 op' q); assumption.
-  - intros j tk r. unfold inst_of. rewrite Hi. fold (inst_of b j). rewrite Ec. intros H. apply OV. apply A4. exact H.
+  - intros j tk r. rewrite Hvw, Ec. intros H. apply OV. apply A4. exact H.
   - intros op' q r v0 t0. rewrite Hp. destruct (op =? op').
     + intros Hq _ Ha. inversion Hq. subst q. cbn in Ha. discriminate.
     + intros H1 H2 H3. unfold in_hist_by. rewrite Hh. apply (A5 op' q r v0 t0); assumption.
@@ -282,7 +292,7 @@ Proof.
 Qed.
 
 Lemma Inv2_apply b t op okind rev val :
-  Inv b -> Inv2 b -> guards b (t, EApply op okind rev val) = [] -> Inv2 (bapply b (t, EApply op okind rev val)).
+  Inv b -> Inv2 b -> guards0 b (t, EApply op okind rev val) = [] -> Inv2 (bapply b (t, EApply op okind rev val)).
 Proof.
   intros I0 I G.
   destruct (aget (b_pend b) op) as [p|] eqn:Hop.
@@ -336,7 +346,7 @@ Proof.
 Qed.
 
 Lemma Inv2_ret b t i op rk rev val :
-  Inv b -> Inv2 b -> guards b (t, ERet i op rk rev val) = [] -> Inv2 (bapply b (t, ERet i op rk rev val)).
+  Inv b -> Inv2 b -> guards0 b (t, ERet i op rk rev val) = [] -> Inv2 (bapply b (t, ERet i op rk rev val)).
 Proof.
   intros I0 I G.
   destruct (aget (b_pend b) op) as [p|] eqn:Hop.
@@ -372,9 +382,18 @@ Proof.
     assert (Hv : v = p_val p) by (unfold v; destruct Hk as [K|K]; rewrite K; reflexivity).
     rewrite Hv, <- Gi. apply Hw; assumption. }
   cbn [bapply]. change (b_pend (b <| b_now := t |>)) with (b_pend b). rewrite Hop. fold v. fold lr. fold b1.
-  destruct ((p_kind p =? kUpdate) && (p_inner p =? sHeartbeat) && (rk =? oOk) && io_flag (inst_of b1 i)
-            && (v_stok (vinfo_of b1 (p_val p)) =? io_tok (inst_of b1 i))
-            && (t - p_t p <? hb_update_timeout (ic_H (cfg_of b1 i))))%bool eqn:Econd; [|exact I1].
+  set (b2 := if (io_hb_op (inst_of b1 i) =? op) && (io_hb_te (inst_of b1 i) <? 0)
+             then upd_inst b1 i (fun x => x <| io_hb_te := t |>) else b1).
+  assert (S2 : b_pend b2 = b_pend b1 /\ b_rets b2 = b_rets b1 /\ b_cfgs b2 = b_cfgs b1 /\ b_vals b2 = b_vals b1 /\
+               b_hist b2 = b_hist b1 /\ (forall j, io_views (inst_of b2 j) = io_views (inst_of b1 j))).
+  { unfold b2. destruct ((io_hb_op (inst_of b1 i) =? op) && (io_hb_te (inst_of b1 i) <? 0)); repeat split; auto.
+    intros j. rewrite inst_of_upd. destruct (Z.eqb_spec i j); [subst|]; reflexivity. }
+  destruct S2 as (P2 & R2 & C2 & V2 & H2 & W2).
+  assert (I2 : Inv2 b2).
+  { apply (Inv2_transfer b1); auto; [rewrite H2; auto|]. apply (views_same_transfer b1); auto. rewrite H2; auto. }
+  destruct ((p_kind p =? kUpdate) && (p_inner p =? sHeartbeat) && (rk =? oOk) && io_flag (inst_of b2 i)
+            && (v_stok (vinfo_of b2 (p_val p)) =? io_tok (inst_of b2 i))
+            && (t - p_t p <? hb_update_timeout (ic_H (cfg_of b2 i))))%bool eqn:Econd; [|exact I2].
   (* the instance takes the new revision as a view of its running term *)
   apply andb_prop in Econd. destruct Econd as [Econd _].
   apply andb_prop in Econd. destruct Econd as [Econd Etok]. apply andb_prop in Econd. destruct Econd as [Econd _].
@@ -382,18 +401,22 @@ Proof.
   apply Z.eqb_eq in Ek, Eok, Etok.
   destruct (Hw (or_intror Ek) Eok) as (X & Y & Z0).
   destruct (i2_key _ I op p Hop) as [Kk _].
-  apply (Inv2_transfer b1); auto.
+  assert (Ec2 : cfg_of b2 i = cfg_of b i) by (unfold cfg_of; rewrite C2; reflexivity).
+  assert (Ev2 : forall v, vinfo_of b2 v = vinfo_of b v) by (intros; unfold vinfo_of; rewrite V2; reflexivity).
+  apply (Inv2_transfer b2); auto.
   intros j tk r. rewrite inst_of_upd. destruct (Z.eqb_spec i j) as [E|E].
   - subst j. cbn [io_views]. intros [Hhd|Htl].
     + inversion Hhd. subst tk r. exists (p_val p).
-      change (cfg_of (upd_inst b1 i _) i) with (cfg_of b i). rewrite <- Gi, <- Kk.
-      split; [exact X|]. unfold sok_of, sid_of, tok_of in *. repeat split; auto.
-      rewrite Gi. exact Etok.
-    + apply (i2_views _ I1). exact Htl.
-  - intros Hin. apply (i2_views _ I1 j tk r Hin).
+      change (cfg_of (upd_inst b2 i _) i) with (cfg_of b2 i). rewrite Ec2, <- Gi, <- Kk.
+      split; [destruct X as (x & Hx & A); exists x; split; [cbn; rewrite H2; exact Hx|exact A]|].
+      unfold sok_of, sid_of, tok_of in *. change (vinfo_of (upd_inst b2 (p_i p) _) (p_val p)) with (vinfo_of b2 (p_val p)).
+      rewrite Ev2. repeat split; auto.
+      rewrite Gi. rewrite Ev2 in Etok. exact Etok.
+    + apply (i2_views _ I2). exact Htl.
+  - intros Hin. apply (i2_views _ I2 j tk r Hin).
 Qed.
 
-Lemma Inv2_step b te : Inv b -> Inv2 b -> guards b te = [] -> Inv2 (bapply b te).
+Lemma Inv2_step b te : Inv b -> Inv2 b -> guards0 b te = [] -> Inv2 (bapply b te).
 Proof.
   intros I0 I G. destruct te as [t e].
   destruct (neutral2 e) eqn:En; [apply Inv2_neutral; assumption|].
@@ -422,7 +445,7 @@ Proof.
 Qed.
 
 Lemma refresh_legit_apply b t op okind rev val :
-  Inv b -> Inv2 b -> guards b (t, EApply op okind rev val) = [] ->
+  Inv b -> Inv2 b -> guards0 b (t, EApply op okind rev val) = [] ->
   ~ In 105 (mon_C01 b (t, EApply op okind rev val)) /\ ~ In 503 (mon_C05 b (t, EApply op okind rev val)).
 Proof.
   intros I0 I G. cbn [mon_C01 mon_C05 snd].
@@ -480,5 +503,6 @@ Proof.
   - cbn in A. destruct (guards b x) eqn:G; [|discriminate].
     destruct pre as [|y pre]; cbn in E.
     + inversion E. subst x post. cbn. auto.
-    + inversion E. subst y. cbn [fold_left]. eapply IH; eauto; [apply Inv_step|apply Inv2_step]; assumption.
+    + inversion E. subst y. cbn [fold_left]. apply guards_split in G. destruct G as [G _].
+      eapply IH; eauto; [apply Inv_step|apply Inv2_step]; assumption.
 Qed.
